@@ -545,6 +545,9 @@ func (e *Engine) load(place *Term, ctx *Ctx, at ssa.Value) *Term {
 		if u, ok := at.(*ssa.UnOp); ok {
 			ty = u.Type()
 		}
+		if dt := derefType(base); dt != nil && len(path) == 0 {
+			ty = dt
+		}
 		if st, ok := ty.Underlying().(*types.Struct); ok {
 			var fis []*Term
 			for i := 0; i < st.NumFields(); i++ {
@@ -554,6 +557,16 @@ func (e *Engine) load(place *Term, ctx *Ctx, at ssa.Value) *Term {
 				fis = append(fis, &Term{Op: OpFInit, Name: f.Name(), Args: []*Term{fv}})
 			}
 			return e.mk(OpStruct, typeName(ty), at, fis...)
+		}
+		if arr, ok := ty.Underlying().(*types.Array); ok && arr.Len() <= 64 {
+			var els []*Term
+			for i := int64(0); i < arr.Len(); i++ {
+				sub := &Term{Op: OpIndex, Args: []*Term{place, C(fmt.Sprint(i))}}
+				els = append(els, e.loadTyped(sub, ctx, atInstr, arr.Elem()))
+			}
+			t := e.mk(OpArray, "", at, els...)
+			t.Typ = ty
+			return t
 		}
 	}
 	// kill analysis
@@ -616,7 +629,12 @@ func (e *Engine) load(place *Term, ctx *Ctx, at ssa.Value) *Term {
 		alts = append(alts, v)
 	}
 	if !must {
-		if base.Op == OpNew {
+		if base.Op == OpNew && len(cands) == 0 && len(path) == 0 && isArrayObj(base) {
+			// contents of a repository-allocated array that no store writes
+			// whole: keep the buffer's identity (element writes via copy /
+			// indexed stores are the layout and effects engines' business)
+			alts = append(alts, &Term{Op: OpDeref, Args: []*Term{base}, Typ: derefType(base)})
+		} else if base.Op == OpNew {
 			alts = append(alts, zeroTerm(at))
 		} else {
 			alts = append(alts, place)
@@ -783,4 +801,23 @@ func (e *Engine) IsZeroBuffer(t *Term) bool {
 		}
 	}
 	return true
+}
+
+func isArrayObj(t *Term) bool {
+	ty := derefType(t)
+	if ty == nil {
+		return false
+	}
+	_, ok := ty.Underlying().(*types.Array)
+	return ok
+}
+
+func derefType(t *Term) types.Type {
+	if t == nil || t.Typ == nil {
+		return nil
+	}
+	if p, ok := t.Typ.Underlying().(*types.Pointer); ok {
+		return p.Elem()
+	}
+	return nil
 }
